@@ -7,7 +7,7 @@ use linfa::{
     traits::{Predict, PredictInplace},
     ParamGuard,
 };
-use ndarray::{Array1, Array2, ArrayBase, ArrayView1, ArrayView2, Data, Ix1, Ix2};
+use ndarray::{Array1, Array2, ArrayBase, ArrayView1, ArrayView2, Axis, Data, Ix1, Ix2};
 use std::cmp::Ordering;
 
 use super::error::{Result, SvmError};
@@ -160,6 +160,19 @@ pub fn fit_nu<F: Float>(
     // the pre-combined hyperplane of a linear kernel was built from the unscaled coefficients
     if let SeparatingHyperplane::Linear(ref mut hyperplane) = res.sep_hyperplane {
         hyperplane.mapv_inplace(|x| x / r);
+    }
+    // the support vectors were selected from the unscaled coefficients; which coefficients exceed
+    // the (absolute) support threshold changes with the rescaling, and the decision function
+    // pairs the stored vectors with the coefficients above the threshold in order
+    if let SeparatingHyperplane::WeightedCombination(ref mut support_vectors) = res.sep_hyperplane {
+        let support = res
+            .alpha
+            .iter()
+            .enumerate()
+            .filter(|(_, a)| a.abs() > F::cast(100.) * F::epsilon())
+            .map(|(i, _)| i)
+            .collect::<Vec<_>>();
+        *support_vectors = dataset.select(Axis(0), &support);
     }
 
     res
